@@ -4,3 +4,21 @@ UNITS = [
        note="half-rate refused for 64-sample short blocks, flag normalised to 0/1, refusal changes nothing"),
   Unit("syn_halfrate_p", ["C20"], "lib/synthesis.c", enforce="vorbis_synthesis_halfrate_p", note="reports the flag"),
 ]
+SYN_ASSUMED = ["decode state built by the harness as vorbis_synthesis_init leaves it: mode table valid below `modes`, NULL beyond; every mapping of type 0; channels <= 2",
+               "_vorbis_block_alloc stub (fresh region per call, recorded in order); _vorbis_block_ripcord by contract (block.c)",
+               "mapping type 0's function bundle holds a contract stub in its inverse slot (the real slot holds mapping0_inverse)",
+               "libogg bit reader by assumed contract"]
+UNITS += [
+  Unit("syn_synthesis", ["C02", "C01", "C11", "C05"], "lib/synthesis.c", enforce="vorbis_synthesis", harness="h_syn_packet.c", entry="h_syn_synthesis", defines=["H_SYN"],
+       replace=["oggpack_read", "oggpack_readinit", "_vorbis_block_ripcord", "verif_mapping_inverse"],
+       unwindset=["mk_vi.0:65", "mk_vi.1:65", "vorbis_synthesis.0:3"], reach=4, timeout=900, assumed=SYN_ASSUMED,
+       note="audio packet header (Vorbis I 4.3.1): 1 type bit, ilog(modes-1) mode bits, two window bits for long blocks only; mode index below the mode count for every bit pattern; rows sized by the block size of the mode; the arena is recycled once; NO return leaves PCM pointers from before the recycling in the block"),
+  Unit("syn_trackonly", ["C02", "C01", "C11", "C07"], "lib/synthesis.c", enforce="vorbis_synthesis_trackonly", harness="h_syn_packet.c", entry="h_syn_trackonly", defines=["H_TRACK"],
+       replace=["oggpack_read", "oggpack_readinit", "_vorbis_block_ripcord"],
+       unwindset=["mk_vi.0:65", "mk_vi.1:65"], reach=2, timeout=900, assumed=SYN_ASSUMED,
+       note="track-only decode: same header layout, never any PCM in the block afterwards, whatever the outcome"),
+  Unit("syn_blocksize", ["C02", "C01"], "lib/synthesis.c", enforce="vorbis_packet_blocksize", harness="h_syn_packet.c", entry="h_syn_blocksize", defines=["H_BLOCKSIZE"],
+       replace=["oggpack_read", "oggpack_readinit", "ov_ilog"],
+       unwindset=["mk_vi.0:65", "mk_vi.1:65"], reach=2, timeout=900, assumed=SYN_ASSUMED,
+       note="packet block size: one of the two block sizes or a documented error; mode index in bounds for every bit pattern"),
+]
